@@ -358,12 +358,28 @@ func (c *xsyncMap) DeleteExpired() {
 	now := time.Now().UnixNano()
 	c.items.Range(func(k string, v interface{}) bool {
 		i := v.(item)
-		if i.expiredWithNow(now) {
-			c.items.Delete(k)
-			if ec != nil {
-				evictedItems = append(evictedItems, kv{k, i.v})
-			}
+		if !i.expiredWithNow(now) {
+			return true
 		}
+		// double check under the bucket lock or delete:
+		// k may have been deleted or may hold a new value by now
+		c.items.Compute(
+			k,
+			func(value interface{}, loaded bool) (interface{}, bool) {
+				if !loaded {
+					return nil, true
+				}
+				i := value.(item)
+				if !i.expiredWithNow(now) {
+					// k has a new value
+					return value, false
+				}
+				if ec != nil {
+					evictedItems = append(evictedItems, kv{k, i.v})
+				}
+				return nil, true
+			},
+		)
 		return true
 	})
 	for _, v := range evictedItems {
